@@ -15,6 +15,8 @@ def _fails(scn, L, run, key, counter):
         code = 0
         try:
             signal.alarm(180)
+            from .runner import prepare
+            prepare(scn, L)             # this fork is pristine: it may own a pristine-process evaluator
             res = scn.execute(L, run)
             if any(vkey(v['oracle'], v['sig']) == key for v in res['violations']):
                 code = 3
